@@ -44,7 +44,15 @@ COVERAGE TABLE (clause / dimension -> what explores it -> single point or absent
                                   RunAndReturn wrappers) = prediction; stress: concurrent constructors, concurrent FIRST EXPECT(),
                                   On() and EXPECT().B() registration concurrent with calls, function-valued returns, caller re-using
                                   its variadic buffer in unroll mode, mock.Mock.Calls checked entry by entry.
-                                  Absent: Times(n)/Once bookkeeping under contention (testify's own), AssertExpectations concurrent.
+                                  Model: spec/TestifyConc.tla on the EXTRACTED programs of every generated testify function (tcall M =
+                                  testify method, atomic under testify's mutex, accesses per the Api table of testify v1.10.0; read/write f
+                                  = direct access of a field of mock.Mock / mock.Call, also through a local loaded from one: range value,
+                                  element, pointer) + the user's own On/Times/Once/Unset/Return/Assert/Called; NoDataRace over 2x2 (3x2
+                                  thorough) = prediction.  History classes (spec/TestifyConcCases.tla, expectation computed there):
+                                  expectation Maybe | Times(N) | N x Once | N/2 x Twice  x  variadic arity na/0/2  x  unroll false/unset/true
+                                  x  user goroutine none/On/On+Unset/Assert*; 8 goroutines consume the limited expectations concurrently.
+                                  Quick: 2 of the 4 user activities per class (ctx.rng); thorough: all 144.
+                                  Absent: AssertExpectations concurrent with calls on the SAME method, WaitUntil/After, NotBefore.
 """
 import json
 import os
@@ -73,7 +81,7 @@ IFACES = {
 }
 GENERIC = {"K9": ("[T any]", "[int]")}
 OPT_PKGS = [(k, bool(k & 1), bool(k & 2), bool(k & 4)) for k in range(8)]  # (k, skip-ensure, stub-impl, with-resets)
-TESTIFY_PKGS = [("t0", False), ("t1", True)]                               # (pkg, unroll-variadic)
+TESTIFY_PKGS = [("t0", False), ("t1", True), ("t2", None)]                 # (pkg, unroll-variadic; None: key not set)
 LOCKOPS = ("lock", "unlock", "rlock", "runlock")
 OPS = {"call:A": "A", "call:B": "B", "calls:A": "ACalls", "calls:B": "BCalls",
        "resetm:A": "ResetACalls", "resetm:B": "ResetBCalls", "resetall": "ResetCalls"}
@@ -101,7 +109,7 @@ def build_world(ctx):
                     for k, skip, stub, resets in OPT_PKGS if resets == want]
             if not want:
                 cfgs += [{"template": "testify", "dir": str(w / "out" / t), "filename": "mocks.go", "pkgname": t,
-                          "structname": "Mock" + n, "template-data": {"unroll-variadic": unroll}}
+                          "structname": "Mock" + n, "template-data": ({} if unroll is None else {"unroll-variadic": unroll})}
                          for t, unroll in TESTIFY_PKGS]
             ifaces[n] = {"configs": cfgs}
         pk[MOD + "/" + pkg] = {"config": {"template-data": {"with-resets": True}} if want else {}, "interfaces": ifaces}
@@ -119,7 +127,8 @@ def build_world(ctx):
             raise MachineryError("mockery exit 0 but %s was not written" % p)
     for name in ("extract", "stress"):
         (w / "drv" / name).mkdir(parents=True)
-        shutil.copy(vlib.VERIF / "drivers" / "concdrv" / name / "main.go", w / "drv" / name / "main.go")
+        for gf in sorted((vlib.VERIF / "drivers" / "concdrv" / name).glob("*.go")):
+            shutil.copy(gf, w / "drv" / name / gf.name)
     imp = "".join('\tm%d "%s/out/m%d"\n' % (k, MOD, k) for k, *_ in OPT_PKGS) + "".join('\t%s "%s/out/%s"\n' % (t, MOD, t) for t, _ in TESTIFY_PKGS)
     ment = "".join('\t"m%d/%s": func() interface{} { return &m%d.Moq%s%s{} },\n' % (k, n, k, n, GENERIC.get(n, ("", ""))[1]) for n in IFACES for k, *_ in OPT_PKGS)
     tent = "".join('\t"%s/%s": func(t tT) interface{} { return %s.NewMock%s%s(t) },\n' % (t, n, t, n, GENERIC.get(n, ("", ""))[1]) for n in IFACES for t, _ in TESTIFY_PKGS)
@@ -217,7 +226,7 @@ def run_module(name, paths):
             "".join("%s == {%s}\n" % (a, ", ".join(json.dumps(o) for o in l)) for a, l in alpha.items()) + "====\n")
 
 
-INVS = "INVARIANTS NoUnlockedAccess NoLostUpdate NoBadUnlock NoLostOrDuplicatedRecord RecordIsOneCallsArgs"
+INVS = "INVARIANTS NoUnlockedAccess NoLostUpdate NoBadUnlock NoLostOrDuplicatedRecord RecordIsOneCallsArgs ReadsFormOneSnapshot"
 
 
 def order_cfg():
@@ -238,6 +247,7 @@ def tlc_job(ctx, tag, module, module_text, cfg_text, workers, timeout, results):
     d = ctx.scratch / ("conc-" + tag)
     d.mkdir()
     shutil.copy(vlib.SPEC / "MatryerConc.tla", d / "MatryerConc.tla")
+    shutil.copy(vlib.SPEC / "TestifyConc.tla", d / "TestifyConc.tla")
     (d / (module + ".tla")).write_text(module_text)
     (d / "run.cfg").write_text(cfg_text)
     cmd = ["tlc", "-workers", str(workers), "-metadir", str(d / "meta"), "-config", "run.cfg", module + ".tla"]
@@ -344,8 +354,93 @@ def testify_footprint(fileinfo):
     return dev
 
 
+# ------------------------------------------------------------------ testify: programs for spec/TestifyConc.tla
+TESTIFY_ENV = {"env:On": ["On"], "env:Times": ["Times"], "env:Once": ["Once"], "env:Unset": ["Unset"], "env:Return": ["Return"],
+               "env:Assert": ["AssertExpectations"], "env:Called": ["Called"]}   # the user's own testify calls
+
+
+def testify_field(v, emb):
+    """receiver-rooted path of a load/store in a generated testify function -> field of testify's shared state
+    ("ExpectedCalls", "Call.Repeatability", ...), None for the embedded struct itself.  emb: field name -> type of the
+    receiver struct's testify-typed fields."""
+    segs = v.split(".")
+    owner = "Mock"
+    while segs and segs[0] in emb:
+        owner = "Call" if emb[segs[0]].lstrip("*") == "mock.Call" else "Mock"
+        segs = segs[1:]
+    if not segs:
+        return None
+    if len(segs) > 1 and any(x.endswith("[]") for x in segs[:-1]):
+        return "Call." + segs[-1].replace("[]", "")        # an element of ExpectedCalls / Calls is a mock.Call
+    name = segs[0].replace("[]", "")
+    return name if owner == "Mock" else "Call." + name
+
+
+def testify_programs(fileinfo, iface):
+    """{op: [path]} of the generated functions that belong to interface `iface` in one testify file; path = [(op, f)]"""
+    out = {}
+    for m in fileinfo["methods"]:
+        r = m["recv"]
+        if r == "Mock" + iface:
+            op = "gen:" + m["name"]
+        elif r == "Mock%s_Expecter" % iface:
+            op = "expecter:" + m["name"]
+        elif r.startswith("Mock%s_" % iface) and r.endswith("_Call"):
+            op = "typed:%s.%s" % (r[len("Mock%s_" % iface):-len("_Call")], m["name"])
+        else:
+            continue
+        emb = {(f["name"] or f["type"].lstrip("*").split(".")[-1]): f["type"] for f in fileinfo["structs"].get(r, []) if f["type"] in TESTIFY_TYPES}
+        allv = {i["v"] for i in m["prog"] + [x for d in m["defers"] for x in d] if i["op"] in ("read", "write")}
+        paths = []
+        for p in enum_paths(m["prog"], m["defers"], allv, keep_forward=True):
+            q = []
+            for o, _mu, v, _k in p:
+                if o == "forward":
+                    q.append(("tcall", v.split(".")[-1]))
+                elif o in ("read", "write"):
+                    f = testify_field(v, emb)
+                    if f:
+                        q.append((o, f))
+            if q not in paths:
+                paths.append(q)
+        out[op] = paths
+    return out
+
+
+def testify_module(name, progs):
+    allp = dict(progs)
+    for o, ms in TESTIFY_ENV.items():
+        allp[o] = [[("tcall", x) for x in ms]]
+    body = " @@ ".join("(%s :> <<%s>>)" % (json.dumps(o), ", ".join(
+        "<<%s>>" % ", ".join("[op |-> %s, f |-> %s]" % (json.dumps(a), json.dumps(b)) for a, b in p) for p in ps))
+        for o, ps in sorted(allp.items()))
+    return ("---- MODULE %s ----\nEXTENDS TestifyConc\nRunProgs == %s\nRunAlpha == {%s}\n====\n"
+            % (name, body, ", ".join(json.dumps(o) for o in sorted(allp))))
+
+
+def testify_cfg(n, k):
+    return ("SPECIFICATION Spec\nCONSTANTS\n  Progs <- RunProgs\n  Alphabet <- RunAlpha\n  Gs = {%s}\n  K = %d\nSYMMETRY Symm\n"
+            "INVARIANT NoDataRace\n" % (", ".join("g%d" % i for i in range(1, n + 1)), k))
+
+
 def run(ctx):
     thorough = ctx.thorough()
+    # the history classes of the testify half and what the contract expects of each: computed by TLC (TestifyConcCases)
+    rc = ctx.tlc_ok("TestifyConcCases", "TestifyConcCases_%s.cfg" % ("thorough" if thorough else "quick"), workers=1, timeout=600)
+    tcases = rc.prints("CASE")
+    for dim, vals in (("exp", {"maybe", "times", "once", "twice"}), ("nvar", {"na", "0", "2"}), ("unroll", {"false", "unset", "true"}),
+                      ("conc", {"none", "on", "unset", "assert"})):
+        if {c[dim] for c in tcases} != vals:
+            raise MachineryError("vacuous: TestifyConcCases exported %s = %s" % (dim, sorted({c[dim] for c in tcases})))
+    ctx.cov["testify_history_classes"] = len(tcases)
+    if not thorough:
+        # quick tier: every (expectation kind, variadic arity, unroll setting) with two of the four user activities, sampled
+        keep = {}
+        for c in tcases:
+            keep.setdefault((c["exp"], c["nvar"], c["unroll"]), []).append(c)
+        tcases = [c for _, cs in sorted(keep.items()) for c in ctx.rng.sample(sorted(cs, key=lambda x: x["id"]), 2)]
+    ctx.cov["testify_history_classes_replayed"] = len(tcases)
+    tick(ctx, "tlc_testify_cases")
     # ------------------------------------------------------------ 1. generate
     w, files = build_world(ctx)
     tick(ctx, "generate")
@@ -428,6 +523,26 @@ def run(ctx):
                            ["write", "", "calls.A", "append"], ["unlock", "lockA", "", ""]]]}
     jobs.append(("selftest-late-record", "MatryerConcLate", run_module("MatryerConcLate", late), order_cfg()))
     jobs.append(("selftest-nolock", "MatryerConcBroken", run_module("MatryerConcBroken", broken), conc_cfg(2, 2, "AlphaOne")))
+    # testify half: the extracted programs of the generated testify functions (tcall = testify method, atomic under
+    # testify's mutex; read/write = direct access of a field of mock.Mock / mock.Call) against spec/TestifyConc.tla
+    tgroups = {}
+    for t, _ in TESTIFY_PKGS:
+        for n in IFACES:
+            tp = testify_programs(info[t], n)
+            if "gen:A" not in tp or "gen:B" not in tp or not any(o.startswith("expecter:") for o in tp):
+                raise MachineryError("extractor found no generated testify functions of %s.Mock%s" % (t, n))
+            if not any(x == ("tcall", "Called") for p in tp["gen:A"] for x in p):
+                raise MachineryError("vacuous: the extracted program of %s.Mock%s.A has no call of testify's Called" % (t, n))
+            tgroups.setdefault(json.dumps(tp, sort_keys=True), []).append("%s/%s" % (t, n))
+    tgl = sorted(tgroups.items(), key=lambda kv: kv[1])
+    tshape = (3, 2) if thorough else (2, 2)
+    for ti, (pj, mocks) in enumerate(tgl):
+        mod = "TestifyConcRun%d" % ti
+        jobs.append(("t%d-conc" % ti, mod, testify_module(mod, json.loads(pj)), testify_cfg(*tshape)))
+    # self-test: a generated method that loads a field of an expectation itself before it calls Called MUST fail
+    jobs.append(("selftest-testify-direct", "TestifyConcBroken",
+                 testify_module("TestifyConcBroken", {"gen:A": [[("read", "ExpectedCalls"), ("read", "Call.Repeatability"), ("tcall", "Called")]]}),
+                 testify_cfg(2, 1)))
     results = {}
     par = 4 if thorough else 5
     per = max(2, min(8, (os.cpu_count() or 8) // par))
@@ -470,6 +585,25 @@ def run(ctx):
 
     # testify footprint
     foot = {}
+    tfoot = {}
+    st = results.get("selftest-testify-direct")
+    if st is None or st.violated != "NoDataRace":
+        raise MachineryError("self-test: TestifyConc did not report a race for a direct read of Call.Repeatability next to Called")
+    for ti, (pj, mocks) in enumerate(tgl):
+        r = results.get("t%d-conc" % ti)
+        if r is None:
+            raise MachineryError("TLC timed out on TestifyConc (group of %s)" % mocks[:3])
+        ctx.cov["states"] += r.distinct
+        ctx.cov["transitions"] += r.generated
+        ctx.cov.setdefault("tlc_runs_detail", {})["t%d-conc" % ti] = {"distinct": r.distinct, "generated": r.generated, "seconds": round(r.wall, 1),
+                                                                    "violated": r.violated, "mocks": len(mocks)}
+        if r.violated:
+            direct = sorted({"%s %s of %s" % (o, x[0], x[1]) for o, ps in json.loads(pj).items() for p in ps for x in p if x[0] != "tcall"})
+            for mname in mocks:
+                tfoot.setdefault(mname.split("/")[0], []).append("%s: TLC finds %s violated on the extracted programs (TestifyConc): %s"
+                                                                % (mname, r.violated, "; ".join(direct[:4])))
+        elif not r.ok:
+            raise MachineryError("TLC failed on TestifyConc:\n" + r.tail())
     for t, _ in TESTIFY_PKGS:
         dev = testify_footprint(info[t])
         if dev:
@@ -479,6 +613,9 @@ def run(ctx):
         if len(nm) < len(IFACES) * 2 * 4:
             raise MachineryError("vacuous: extractor saw only %d testify methods in %s" % (len(nm), t))
 
+    for t, devs in sorted(tfoot.items()):
+        foot[t] = foot.get(t, []) + devs
+        ctx.note("testify model-level prediction (%s): %s" % (t, devs[0]))
     # ------------------------------------------------------------ 3. the real-code oracle: stress under -race
     bt.join()
     if build_err:
@@ -487,12 +624,15 @@ def run(ctx):
     if not race_ok:
         ctx.note("go build -race is not available here (cgo/C compiler missing): falling back to the model + lost/torn-record oracle")
     plan = {"seed": ctx.seed, "g": 8, "k": 400 if thorough else 150, "rounds": 6 if thorough else 2,
-            "hist": 120 if thorough else 25, "unroll": dict(TESTIFY_PKGS), "only": [], "testify": True}
+            "hist": 120 if thorough else 25, "unroll": dict(TESTIFY_PKGS), "only": [], "testify": True,
+            "tcases": tcases, "unroll_s": {t: ("unset" if u is None else "true" if u else "false") for t, u in TESTIFY_PKGS},
+            "snap_ms": 200 if thorough else 40}
     res, races, errm = run_stress(ctx, w, w / "stressbin", plan, "main", 2400 if thorough else 300)
     runs = [("main", res, races, errm)]
     suspects = sorted(set(predictions) | {"%s/" % t for t in foot})
     if suspects and res is not None and not res["failures"] and not races:
-        plan2 = dict(plan, only=suspects, rounds=plan["rounds"] * 4, k=plan["k"] * 2, hist=0)
+        plan2 = dict(plan, only=suspects, rounds=plan["rounds"] * 4, k=plan["k"] * 2, hist=0,
+                     snap_ms=max(plan["snap_ms"], min(1500, (60000 if thorough else 12000) // max(1, len(suspects)))))
         runs.append(("predicted",) + run_stress(ctx, w, w / "stressbin", plan2, "predicted", 2400 if thorough else 300))
     tick(ctx, "stress")
     all_hist = []
@@ -563,7 +703,9 @@ def run(ctx):
         return {"level": "model_checking", "exhaustive": False}
     if len(targets) < NT:
         raise MachineryError("vacuous: stress ran on %d targets only" % len(targets))
-    for need in ("calls", "concurrent_reads", "concurrent_resets", "testify_calls", "testify_concurrent_on", "testify_expecter_rounds", "testify_concurrent_first_expect", "testify_concurrent_constructors", "testify_concurrent_typed_on", "recorder_targets", "probe_calls", "histories"):
+    for need in ("calls", "concurrent_reads", "concurrent_resets", "testify_calls", "testify_concurrent_on", "testify_expecter_rounds", "testify_concurrent_first_expect", "testify_concurrent_constructors", "testify_concurrent_typed_on", "recorder_targets", "probe_calls", "histories",
+                 "testify_case_runs", "testify_zero_variadic_calls", "testify_limited_expectation_calls", "testify_case_conc_on",
+                 "testify_case_conc_unset", "testify_case_conc_assert", "snapshot_reads_nonempty", "snapshot_resets", "snapshot_calls"):
         if not stats.get(need):
             raise MachineryError("vacuous: stress statistics lack %s" % need)
     if predictions and not n_viol:
@@ -625,6 +767,7 @@ def run(ctx):
         "TLC explores all interleavings of the extracted programs for the listed goroutine x operation configurations (small scope); goroutine-local instructions are dropped, loops abstracted to 0/1 iterations",
         "memory-level data races are decided by the Go race detector on free-running stress runs, not by the model",
         "testify's own locking is trusted (the property scopes it); the generated code's footprint is asserted and stressed",
+        "which fields a testify method touches under its mutex is a hand-read table of testify v1.10.0 mock.go (spec/TestifyConc.tla Api); the race detector on the replayed history classes is the verdict",
         "sync.RWMutex writer preference is not modelled (no nested locking in the extracted programs)",
     ]
     return {"level": "model_checking", "exhaustive": False}
